@@ -375,6 +375,7 @@ func runMkdir(m *Model, c Case) ([]Diff, string) {
 	populate(jail, c.Pre)
 	before := snapshot(jail)
 	target := c.targetIn(jail)
+	extsBefore := append([]string{}, c.Exts...)
 	opts := append([]gtree.Option{gtree.WithTargetDir(target), gtree.WithFileExtensions(c.Exts)}, strayOpts(c)...)
 	var written bytes.Buffer
 	var err error
@@ -407,6 +408,9 @@ func runMkdir(m *Model, c Case) ([]Diff, string) {
 	}
 	after := snapshot(jail)
 	realv := "fs=" + strings.Join(after, ",") + " w=" + hx(written.Bytes()) + " e=" + classify(err)
+	if strings.Join(extsBefore, "\x00") != strings.Join(c.Exts, "\x00") {
+		return []Diff{{What: "the call modified the extension list it was given", Real: strings.Join(c.Exts, ","), Model: strings.Join(extsBefore, ",")}}, realv
+	}
 	var resp string
 	if c.FromRoot {
 		resp = m.Ask("mkdirroot " + fmtDefault.enc() + " " + hxList(c.Exts) + " " + hxs(target) + " " + b01(c.Dry) + " " + encFS(jail, before) + " " + addMirror(parseTreeEnc(c.Tree)).Enc())
